@@ -2,7 +2,8 @@
 
 Implementation under test (real code from REPO/src, nothing re-implemented):
   * TaskDescription(from_dict) / .as_dict() / .verify()  (ru.TypedDict.verify +
-    TaskDescription._verify), twice, and the dict round trip before/after verify
+    TaskDescription._verify), twice, and the dict round trip before/after verify;
+    the same for PilotDescription
   * utils.misc.convert_slots_to_new / convert_slots_to_old, Slot(from_dict), Slot.as_dict
   * PythonTask(func, args, kwargs), rp.pythontask(f)(...), PythonTask.get_func_attr
     with dill/pickle really executed, and the decoded function really called.
@@ -27,18 +28,19 @@ _TABLE = None
 def table():
     global _TABLE
     if _TABLE is None:
-        txt = open(os.path.join(COQ, 'Gen', 'Descr.v')).read()
-        sch = re.findall(r'^\s*\("([a-z_]+)"%string, \((F[A-Za-z]+)([^;\n]*)\)\)[;\]]', txt, re.M)
-        schema = {}
-        for k, f, rest in sch:
-            schema[k] = (f, rest.strip())
+        full = open(os.path.join(COQ, 'Gen', 'Descr.v')).read()
+        cut = full.index('(* from src/radical/pilot/pilot_description.py *)')
+        txt, pdtxt = full[:cut], full[cut:]
+        pat = r'^\s*\("([a-z_]+)"%string, \((F[A-Za-z]+)([^;\n]*)\)\)[;\]]'
+        schema = {k: (f, rest.strip()) for k, f, rest in re.findall(pat, txt, re.M)}
+        pd_schema = {k: (f, rest.strip()) for k, f, rest in re.findall(pat, pdtxt, re.M)}
         sect = txt[txt.index('td_rules'):txt.index('td_aliases')]
         rules = []
         for ms, cs in re.findall(r'\(\[([^\]]*)\], \[([^\]]*)\]\)', sect):
             rules.append((re.findall(r'"([^"]*)"%string', ms),
                           [(f, b == 'true') for f, b in re.findall(r'\("([^"]*)"%string, (true|false)\)', cs)]))
         aliases = re.findall(r'mkAlias "([a-z_]+)"%string "([a-z_]+)"%string (CId|CFloat) "([a-z_]+)"%string', txt)
-        _TABLE = dict(schema=schema, rules=rules, aliases=aliases)
+        _TABLE = dict(schema=schema, rules=rules, aliases=aliases, pd_schema=pd_schema)
     return _TABLE
 
 
@@ -168,17 +170,18 @@ class C19(Prop):
     module = 'c19'
     title = 'Descriptions and payloads survive normalisation and transport'
     props_files = ['Props/C19.v']
-    extra_targets = ['Descr/Oracle.vo']
-    model_targets = ['Descr/Oracle.vo']
+    extra_targets = ['Descr/Oracle.vo', 'Gen/Descr.vo']
+    model_targets = ['Descr/Oracle.vo', 'Gen/Descr.vo']
     translators = ['descr']
     header = 'From RP Require Import Descr.Types Descr.Model Descr.Oracle Gen.Descr.'
     clauses = ['idempotent', 'alias_preserved', 'mode_enforced', 'untouched_preserved', 'dict_roundtrip',
                'slots_preserved', 'envelope_roundtrip']
-    corr_name = ('Descr.Model(construct/as_dict/verify over Gen.Descr.td_table; slots_to_new/slots_to_old/slot_ctor; '
-                 'transport) vs TaskDescription/ru.TypedDict, convert_slots_to_new/_old/Slot, PythonTask')
+    corr_name = ('Descr.Model(construct/as_dict/verify over Gen.Descr.td_table, pd_verify over pd_table; '
+                 'slots_to_new/slots_to_old/slot_ctor; transport) vs TaskDescription/PilotDescription/ru.TypedDict, convert_slots_to_new/_old/Slot, PythonTask')
     rule = ('corpus; one description per deprecated name alone and per mode with/without its required attributes; '
             'random task descriptions (all modes incl. unknown/empty, 0-8 further attributes with mostly valid, '
             'some castable and a few invalid values, deprecated and current names in any combination, unknown keys); '
+            'random pilot descriptions (resource / nodes / cores / gpus / backup_nodes combinations + further attributes); '
             'random slot lists (new Slot objects, their plain dicts, old int/dict/tuple/RO/per-rank-list encodings) '
             'through pipelines of to_new/to_old/Slot()/as_dict; function envelopes over a corpus of 11 callables '
             '(function, lambda, partial, closure, callable object, builtin, non-callables) with random args/kwargs, '
@@ -294,6 +297,37 @@ class C19(Prop):
         rng.shuffle(items)
         return {'kind': 'td', 'd': dict(items)}
 
+    def _pd_case(self, rng):
+        schema = table()['pd_schema']
+        d = {}
+        r = rng.random()
+        if r < 0.85:
+            d['resource'] = rng.choice(['local.localhost', 'ornl.summit', 'a'])
+        elif r < 0.92:
+            d['resource'] = rng.choice(['', None, 0])
+        r = rng.random()
+        if r < 0.40:
+            d['cores'] = rng.choice([1, 8, 64, '16', 2.0, 0])
+        elif r < 0.75:
+            d['nodes'] = rng.choice([1, 2, '4', 0])
+        elif r < 0.90:
+            d['nodes'] = rng.choice([1, 2])
+            d[rng.choice(['cores', 'gpus'])] = rng.choice([1, 4, 0])
+        if rng.random() < 0.2:
+            d['backup_nodes'] = rng.choice([1, 2, 0])
+        if rng.random() < 0.2:
+            d['gpus'] = rng.choice([0, 1, 6])
+        for k in rng.sample(sorted(schema), rng.randint(0, 5)):
+            if k in d:
+                continue
+            f, rest = schema[k]
+            d[k] = self._value(rng, f, rest, rng.random())
+        if rng.random() < 0.03:
+            d['foo'] = 1
+        items = list(d.items())
+        rng.shuffle(items)
+        return {'kind': 'pd', 'd': dict(items)}
+
     KINDS_OLD = ['ints', 'dicts', 'pairs', 'ros', 'lists']
 
     def _res(self, rng, kind, n):
@@ -364,9 +398,16 @@ class C19(Prop):
         for f in FUNCS:
             yield {'kind': 'env', 'func': f, 'via': 'class', 'args': [1, 'a'], 'kwargs': {'p': 2}}
             yield {'kind': 'env', 'func': f, 'via': 'decor', 'args': [1, 'a'], 'kwargs': {'p': 2}}
-        n_td, n_sl, n_env = (420, 160, 110) if tier == 'quick' else (9000, 4000, 2500)
+        n_td, n_sl, n_env, n_pd = (400, 150, 100, 100) if tier == 'quick' else (9000, 4000, 2500, 2500)
         for _ in range(n_td):
             yield self._td_case(rng)
+        yield {'kind': 'pd', 'd': {}}
+        yield {'kind': 'pd', 'd': {'resource': 'local.localhost', 'cores': 4}}
+        yield {'kind': 'pd', 'd': {'resource': 'local.localhost', 'nodes': 2, 'backup_nodes': 1}}
+        yield {'kind': 'pd', 'd': {'resource': 'local.localhost', 'nodes': 2, 'gpus': 1}}
+        yield {'kind': 'pd', 'd': {'resource': 'local.localhost', 'backup_nodes': 1, 'cores': 4}}
+        for _ in range(n_pd):
+            yield self._pd_case(rng)
         for _ in range(n_sl):
             yield self._slots_case(rng)
         for _ in range(n_env):
@@ -391,7 +432,7 @@ class C19(Prop):
         self.rp = rp_import()
 
     def _run_td(self, case):
-        TD = self.rp.TaskDescription
+        TD = self.rp.TaskDescription if case['kind'] == 'td' else self.rp.PilotDescription
         td = TD(from_dict=copy.deepcopy(case['d']))
         obs = {'c': tag_descr(td._data)}
         obs['rt'] = tag_descr(TD(from_dict=td.as_dict())._data)
@@ -541,7 +582,7 @@ class C19(Prop):
                 'same': want == got, 'want': want, 'got': got, 'callable': callable(g)}
 
     def run_impl(self, case):
-        if case['kind'] == 'td':
+        if case['kind'] in ('td', 'pd'):
             return self._run_td(case)
         if case['kind'] == 'slots':
             return self._run_slots(case)
@@ -571,7 +612,7 @@ class C19(Prop):
         return '(Some %s)' % L.lst([L.pair(L.string(k), coq_atom(v)) for k, v in kw])
 
     def coq_row(self, case, obs):
-        if case['kind'] == 'td':
+        if case['kind'] in ('td', 'pd'):
             x = coq_descr(tag_descr(case['d']))
             # equal snapshots share one literal (let-bound)
             names, lets = {}, []
@@ -590,7 +631,8 @@ class C19(Prop):
                 v2 = '(Some (inl %s))' % errname(obs['v2']['exc']) if isinstance(obs['v2'], dict) \
                     else '(Some (inr %s))' % ref(obs['v2'])
                 rtv = '(Some %s)' % ref(obs['rtv'])
-            return '(%sc19_td_row td_table %s (mkTdObs %s %s %s %s %s))' % (''.join(lets), x, c, rt, v1, v2, rtv)
+            return '(%sc19_%s_row %s_table %s (mkTdObs %s %s %s %s %s))' % (
+                ''.join(lets), case['kind'], case['kind'], x, c, rt, v1, v2, rtv)
         if case['kind'] == 'slots':
             st = []
             for s in obs['stages']:
@@ -616,6 +658,9 @@ class C19(Prop):
         if case['kind'] == 'td':
             x = coq_descr(tag_descr(case['d']))
             return '(construct td_table %s, verify td_table (construct td_table %s))' % (x, x)
+        if case['kind'] == 'pd':
+            x = coq_descr(tag_descr(case['d']))
+            return '(construct pd_table %s, pd_verify pd_table (construct pd_table %s))' % (x, x)
         if case['kind'] == 'slots':
             return 'run_sops %s %s' % (L.lst([self.OPS[o] for o in case['ops']]),
                                        L.lst([self._coq_slot(s) for s in case['slots']]))
@@ -625,13 +670,15 @@ class C19(Prop):
 
     # ------------------------------------------------------------------ meta
     def nontrivial(self, case, obs):
-        if case['kind'] == 'td':
+        if case['kind'] in ('td', 'pd'):
             return len(case['d']) >= 2
         if case['kind'] == 'slots':
             return any(s['cores'][1] or s['gpus'][1] for s in case['slots'])
         return callable(FUNCS[case['func']])
 
     def signature(self, case, obs, clause):
+        if case['kind'] == 'pd':
+            return '%s:PilotDescription.verify' % clause
         if case['kind'] == 'td':
             T = table()
             if clause == 'alias_preserved':
@@ -677,10 +724,10 @@ class C19(Prop):
         return [i for i, _ in data]
 
     def shrink(self, case):
-        if case['kind'] == 'td':
+        if case['kind'] in ('td', 'pd'):
             d = case['d']
             for k in list(d):
-                yield {'kind': 'td', 'd': {a: b for a, b in d.items() if a != k}}
+                yield {'kind': case['kind'], 'd': {a: b for a, b in d.items() if a != k}}
             return
         if case['kind'] == 'slots':
             ss, ops = case['slots'], case['ops']
@@ -712,7 +759,11 @@ class C19(Prop):
             c = r['case']
             kinds[c['kind']] = kinds.get(c['kind'], 0) + 1
             o = r['obs'] or {}
-            if c['kind'] == 'td':
+            if c['kind'] == 'pd':
+                e = o.get('v1', {})
+                e = e.get('exc', 'accepted') if isinstance(e, dict) else 'accepted'
+                excs['pd:' + e] = excs.get('pd:' + e, 0) + 1
+            elif c['kind'] == 'td':
                 m = str(c['d'].get('mode', 'absent'))
                 modes[m] = modes.get(m, 0) + 1
                 n = sum(1 for k in c['d'] if k in srcs)
